@@ -81,7 +81,7 @@ class Topology:
       segment_name = segment.name
     else:
       segment_name = segment
-      segment = self.segment(segment)
+      segment = self.try_get_segment(segment)
     visited.add(segment_name)
     c = set()
     c.add(segment)
